@@ -52,6 +52,126 @@ theorem groupAuxOC_spec (d : Rat) : ∀ (l : List (Rat × Rat)) (lo0 : Rat) (i :
         · exact hlt
         · exact hall p hp
 
+/-- membership predicate of an open-closed lag class `k`: `edge[k-1] < d ≤ edge[k]` -/
+def inClassOC (edges : List Rat) (k : Nat) (d : Rat) : Bool :=
+  decide ((0 :: edges).getD k 0 < d ∧ d ≤ edges.getD k 0)
+
+/-- in a non-decreasing chain the open-closed interval containing `d` is unique -/
+theorem intervalOC_unique (es : List Rat) (h : (0 :: es).Pairwise (· ≤ ·)) (d : Rat)
+    (k k' : Nat) (hk : k < es.length) (hk' : k' < es.length)
+    (h1 : (0 :: es)[k]'(by simp; omega) < d ∧ d ≤ es[k])
+    (h2 : (0 :: es)[k']'(by simp; omega) < d ∧ d ≤ es[k']) : k = k' := by
+  rw [List.pairwise_iff_getElem] at h
+  by_contra hne
+  rcases Nat.lt_or_gt_of_ne hne with hlt | hlt
+  · have : (0 :: es)[k+1]'(by simp; omega) ≤ (0 :: es)[k']'(by simp; omega) := by
+      rcases Nat.eq_or_lt_of_le (Nat.succ_le_of_lt hlt) with e | l
+      · simp only [Nat.succ_eq_add_one] at e; simp [e]
+      · exact h (k+1) k' (by simp; omega) (by simp; omega) l
+    have e : (0 :: es)[k+1]'(by simp; omega) = es[k] := by simp
+    rw [e] at this
+    exact absurd (lt_of_le_of_lt (le_trans h1.2 this) h2.1) (lt_irrefl _)
+  · have : (0 :: es)[k'+1]'(by simp; omega) ≤ (0 :: es)[k]'(by simp; omega) := by
+      rcases Nat.eq_or_lt_of_le (Nat.succ_le_of_lt hlt) with e | l
+      · simp only [Nat.succ_eq_add_one] at e; simp [e]
+      · exact h (k'+1) k (by simp; omega) (by simp; omega) l
+    have e : (0 :: es)[k'+1]'(by simp; omega) = es[k'] := by simp
+    rw [e] at this
+    exact absurd (lt_of_le_of_lt (le_trans h2.2 this) h1.1) (lt_irrefl _)
+
+/-- the open-closed loop on edges: class index or −1 -/
+theorem groupLoopOC_cases (es : List Rat) (h : (0 :: es).Pairwise (· ≤ ·)) (d : Rat) (hd : 0 < d) :
+    (∃ k, ∃ hk : k < es.length, (0 :: es)[k]'(by simp; omega) < d ∧ d ≤ es[k] ∧
+        groupLoopOC es d = (k : Int)) ∨
+    ((∀ e ∈ es, e < d) ∧ groupLoopOC es d = -1) := by
+  have hc := chained_intervals es 0 (mono_of_pairwise es 0 h)
+  rcases groupAuxOC_spec d (intervals es) 0 0 (-1) hc hd with ⟨k, hk, ha, hb, hg⟩ | ⟨hall, hg⟩
+  · left
+    have hk' : k < es.length := by simpa [intervals] using hk
+    refine ⟨k, hk', ?_, ?_, ?_⟩
+    · have := intervals_get es k hk'; rw [this] at ha; exact ha
+    · have := intervals_get es k hk'; rw [this] at hb; exact hb
+    · unfold groupLoopOC; rw [hg]; simp
+  · right
+    refine ⟨?_, hg⟩
+    intro e he
+    obtain ⟨k, hk, rfl⟩ := List.getElem_of_mem he
+    have hm : (intervals es)[k]'(by simpa [intervals] using hk) ∈ intervals es := List.getElem_mem _
+    have := hall _ hm
+    rw [intervals_get es k hk] at this
+    exact this
+
+/-- a distance 0 (co-located stations, identical time steps) belongs to no open-closed class -/
+theorem groupLoopOC_zero (es : List Rat) (h : (0 :: es).Pairwise (· ≤ ·)) :
+    groupLoopOC es 0 = -1 := by
+  have hc := chained_intervals es 0 (mono_of_pairwise es 0 h)
+  unfold groupLoopOC
+  exact groupAuxOC_lt 0 (intervals es) 0 0 (-1) hc (le_refl 0)
+
+theorem groupLoopOC_eq_iff_inClassOC (edges : List Rat) (h : (0 :: edges).Pairwise (· ≤ ·)) (d : Rat)
+    (hd : 0 ≤ d) (k : Nat) (hk : k < edges.length) :
+    (groupLoopOC edges d == (k : Int)) = inClassOC edges k d := by
+  have hk1 : k < (0 :: edges).length := by simp; omega
+  have e1 : (0 :: edges).getD k 0 = (0 :: edges)[k] := by
+    rw [List.getD_eq_getElem?_getD, List.getElem?_eq_getElem hk1]; rfl
+  have e2 : edges.getD k 0 = edges[k] := by
+    rw [List.getD_eq_getElem?_getD, List.getElem?_eq_getElem hk]; rfl
+  unfold inClassOC
+  rw [e1, e2]
+  rcases eq_or_lt_of_le hd with h0 | hpos
+  · -- d = 0: no class; and `lo < 0` is impossible since every lower edge is ≥ 0
+    subst h0
+    have hlo : (0 : Rat) ≤ (0 :: edges)[k] := by
+      rcases Nat.eq_zero_or_pos k with rfl | hkpos
+      · simp
+      · have := (List.pairwise_cons.1 h).1 ((0 :: edges)[k]) (by
+          have : (0 :: edges)[k] = edges[k - 1]'(by omega) := by
+            cases k with
+            | zero => omega
+            | succ j => simp
+          rw [this]; exact List.getElem_mem _)
+        exact this
+    rw [groupLoopOC_zero edges h]
+    have : ¬ ((0 :: edges)[k] < 0 ∧ (0 : Rat) ≤ edges[k]) := fun hh => absurd hh.1 (not_lt.2 hlo)
+    simp [this]
+  · have key : groupLoopOC edges d = (k : Int) ↔ ((0 :: edges)[k] < d ∧ d ≤ edges[k]) := by
+      constructor
+      · intro hg
+        rcases groupLoopOC_cases edges h d hpos with ⟨k', hk', ha, hb, hg'⟩ | ⟨_, hg'⟩
+        · have : k = k' := by rw [hg] at hg'; exact_mod_cast hg'
+          subst this; exact ⟨ha, hb⟩
+        · rw [hg] at hg'; omega
+      · intro hin
+        rcases groupLoopOC_cases edges h d hpos with ⟨k', hk', ha, hb, hg'⟩ | ⟨hall, _⟩
+        · have := intervalOC_unique edges h d k k' hk hk' hin ⟨ha, hb⟩
+          subst this; exact hg'
+        · exact absurd (hall _ (List.getElem_mem hk)) (not_lt.2 hin.2)
+    by_cases hin : (0 :: edges)[k] < d ∧ d ≤ edges[k]
+    · simp [hin, key.2 hin]
+    · have : ¬ groupLoopOC edges d = (k : Int) := fun hg => hin (key.1 hg)
+      simp [hin, this]
+
+/-- the members of an open-closed class: exactly the entries whose distance lies in it -/
+theorem lagClassOC_spec {α} (edges : List Rat) (h : (0 :: edges).Pairwise (· ≤ ·))
+    (k : Nat) (hk : k < edges.length) :
+    ∀ (ds : List Rat) (xs : List α), (∀ d ∈ ds, 0 ≤ d) →
+    lagClass (groupsOC edges ds) xs k =
+      ((ds.zip xs).filter (fun p => inClassOC edges k p.1)).map (·.2) := by
+  intro ds
+  induction ds with
+  | nil => intro xs _; simp [lagClass, groupsOC]
+  | cons d ds ih =>
+    intro xs hpos
+    cases xs with
+    | nil => simp [lagClass, groupsOC]
+    | cons x xs =>
+      have hd : 0 ≤ d := hpos d (by simp)
+      have ih' := ih xs (fun d' hd' => hpos d' (by simp [hd']))
+      unfold lagClass groupsOC at ih' ⊢
+      simp only [List.map_cons, List.zip_cons_cons, List.filter_cons]
+      rw [groupLoopOC_eq_iff_inClassOC edges h d hd k hk]
+      cases hc : inClassOC edges k d <;> simp [ih']
+
 /-- a space-major double loop is the flat table indexed by `k = i·nt + j` -/
 theorem flatMap_range_eq {β} (f : ℕ → ℕ → β) (nt : ℕ) (hnt : 0 < nt) : ∀ nx : ℕ,
     ((List.range nx).flatMap fun i => (List.range nt).map fun j => f i j) =
